@@ -104,6 +104,13 @@ func (c *EvalCtx) lookupLocal(name string) (Val, bool) {
 	}
 	// candidates: allocs with this source name that have a live address
 	var best *ssa.Alloc
+	if name == "rangeindex" && c.x.curLoop != nil {
+		if ra := rangeIndexAlloc(c.x.curLoop); ra != nil {
+			if a, ok := fr.addrs[ra]; ok {
+				return c.x.loadAt(c.st, a), true
+			}
+		}
+	}
 	var obj types.Object
 	if c.pos != token.NoPos {
 		if pkg := fr.fn.Pkg; pkg != nil {
